@@ -39,6 +39,11 @@ var primitiveEffects = map[string]string{
 	"io/ioutil.WriteFile": "fswrite", "io/ioutil.TempFile": "fswrite", "io/ioutil.TempDir": "fswrite",
 	"os.File.Write": "fswrite", "os.File.WriteString": "fswrite", "os.File.WriteAt": "fswrite", "os.File.Truncate": "fswrite", "os.File.Chmod": "fswrite", "os.File.ReadFrom": "fswrite",
 	"os.Exit": "exit",
+	// readers that can hand back a part of the input without an error (C17)
+	"bufio.Reader.ReadLine": "partialread", "io.LimitReader": "partialread", "io.CopyN": "partialread", "io.ReadAtLeast": "partialread",
+	"io.ReadFull": "partialread", "os.File.Read": "partialread", "os.File.ReadAt": "partialread", "bufio.Reader.Read": "partialread",
+	"bufio.Reader.ReadSlice": "partialread", "bufio.Reader.Peek": "partialread", "bytes.Buffer.Next": "partialread", "bytes.Buffer.Truncate": "partialread",
+	"bufio.Scanner.Buffer": "scanbuffer",
 	"time.Now": "time", "time.Since": "time", "time.Until": "time",
 	"os.Getpid": "pid", "os.Getppid": "pid", "os.Hostname": "pid",
 	"os.Getenv": "env", "os.LookupEnv": "env", "os.Environ": "env",
